@@ -491,7 +491,7 @@ func (o *Obligation) solve(dir string, timeoutS int, thorough bool) {
 			}
 			rctx, rcancel := context.WithCancel(context.Background())
 			n := 2 + len(variants)
-			ch := make(chan res, n)
+			ch := make(chan res, n+4)
 			for _, s := range solvers[:2] {
 				s := s
 				go func() {
@@ -505,6 +505,22 @@ func (o *Obligation) solve(dir string, timeoutS int, thorough bool) {
 					v, out, secs := runSolverCtx(rctx, solvers[0], vr.path, timeoutS)
 					ch <- res{vr, solvers[0].name, v, out, secs}
 				}()
+			}
+			// cvc5 on the plain query and on the exact instantiated variant
+			n++
+			go func() {
+				v, out, secs := runSolverCtx(rctx, solvers[2], path, timeoutS)
+				ch <- res{nil, solvers[2].name, v, out, secs}
+			}()
+			for i := range variants {
+				if variants[i].exact {
+					vr := &variants[i]
+					n++
+					go func() {
+						v, out, secs := runSolverCtx(rctx, solvers[2], vr.path, timeoutS)
+						ch <- res{vr, solvers[2].name, v, out, secs}
+					}()
+				}
 			}
 			maxSecs := 0.0
 			for i := 0; i < n; i++ {
@@ -527,18 +543,7 @@ func (o *Obligation) solve(dir string, timeoutS int, thorough bool) {
 			rcancel()
 			o.Secs += maxSecs
 			if !decided {
-				for _, vr := range variants {
-					if vr.exact {
-						v, out, secs := runSolver(solvers[2], vr.path, timeoutS)
-						o.Secs += secs
-						if decided = recordV(vr, solvers[2].name, v, out); decided {
-							break
-						}
-					}
-				}
-			}
-			if !decided {
-				for _, s := range solvers[2:] {
+				for _, s := range solvers[3:] {
 					v, out, secs := runSolver(s, path, timeoutS)
 					o.Secs += secs
 					if record(s.name, v, out) {
